@@ -145,6 +145,19 @@ Theorem C07_fract_vs_cartn : forall (eps : R) (lat : latdata R) (recbase : gmat 
 Proof. exact fract_vs_cartn. Qed.
 Print Assumptions C07_fract_vs_cartn.
 
+(* ... and for whole files: a site loop whose last three columns are the fractional coordinates of the points ps reads
+   like the same loop with instead the three Cartesian columns holding cartesian(p) (fract3 / cartn3; the other columns O
+   are arbitrary apart from holding no Cartesian column; C07_column_order moves the three columns anywhere) *)
+Theorem C07_fract_vs_cartn_file : forall (eps : R) (lat : latdata R) (recbase : gmat R) (Dz : Z) (grid : R -> Z) (dcv : dec -> R),
+  (forall c, cartesian (Env (RC eps) lat recbase Dz grid dcv) (fractional (Env (RC eps) lat recbase Dz grid dcv) c) = c) ->
+  forall find Tb cell n (O : list (tcol (T:=R))) nx ny nz ps aniso b,
+  (forall p, fractional (Env (RC eps) lat recbase Dz grid dcv) (cartesian (Env (RC eps) lat recbase Dz grid dcv) p) = p) ->
+  no_cartn_cols O ->
+  read_typed (Env (RC eps) lat recbase Dz grid dcv) find Tb cell (TLoop n (O ++ cartn3 eps lat recbase Dz grid dcv nx ny nz ps)) aniso b =
+  read_typed (Env (RC eps) lat recbase Dz grid dcv) find Tb cell (TLoop n (O ++ fract3 nx ny nz ps)) aniso b.
+Proof. exact fract_vs_cartn_file. Qed.
+Print Assumptions C07_fract_vs_cartn_file.
+
 (* ---- operators versus number versus symbol ------------------------------------------------------------------------- *)
 (* for every tabulated setting s and every spelling st: a block giving the operator list and a block giving instead the
    table number, or a short/full Hermann-Mauguin symbol that only this setting carries (name_unique), with the same
